@@ -696,6 +696,236 @@ func c26(args []string) error {
 		_ = st.Close()
 		os.RemoveAll(S)
 	}
+	// ---- histories on one long-lived handle (spec/rules/TreeJailHist.tla): the kind of component d changes between
+	// operations (directory -> symlink by checkout / reset / directly on disk); every step is recorded as its own
+	// trace with the link table of the CURRENT tree.  On-disk worktree; handle "reused" = one *Worktree for the whole
+	// history, "fresh" = a new one per step (control).
+	type hStep struct {
+		Op   string   `json:"op"`
+		Arg  string   `json:"arg"`
+		Path []string `json:"path"`
+		Dk   string   `json:"dk"`
+		Tgt  []string `json:"tgt"`
+	}
+	type hHist struct {
+		Steps []hStep `json:"steps"`
+		Must  []bool  `json:"must"`
+	}
+	var hists []*hHist
+	_ = rep.ReadNDJSON(filepath.Join(filepath.Dir(args[0]), "treejail_hist.ndjson"), func(line []byte) error {
+		var x hHist
+		if err := json.Unmarshal(line, &x); err != nil {
+			return err
+		}
+		hists = append(hists, &x)
+		return nil
+	})
+	sort.Slice(hists, func(i, j int) bool {
+		a, _ := json.Marshal(hists[i])
+		b, _ := json.Marshal(hists[j])
+		return string(a) < string(b)
+	})
+	hBudget := 72
+	if rep.Thorough() {
+		hBudget = 1200
+	}
+	if len(hists) > hBudget {
+		// strata: (prime, swap-by, target, first probe op); short histories first inside a stratum
+		strata := map[string][]*hHist{}
+		var sk []string
+		for _, h := range hists {
+			k := ""
+			for _, st := range h.Steps[1:] {
+				if st.Path == nil || len(st.Path) == 0 || st.Dk == "dir" {
+					k += st.Op + ":" + st.Arg + ":" + strings.Join(st.Tgt, "/") + "|"
+				} else {
+					k += st.Op
+					break
+				}
+			}
+			if _, ok := strata[k]; !ok {
+				sk = append(sk, k)
+			}
+			strata[k] = append(strata[k], h)
+		}
+		sort.Strings(sk)
+		var sel []*hHist
+		for round := 0; len(sel) < hBudget && round < 64; round++ {
+			for _, k := range sk {
+				g := strata[k]
+				if round == 0 {
+					rnd.Shuffle(len(g), func(i, j int) { g[i], g[j] = g[j], g[i] })
+					sort.SliceStable(g, func(i, j int) bool { return len(g[i].Steps) < len(g[j].Steps) })
+				}
+				if round < len(g) && len(sel) < hBudget {
+					sel = append(sel, g[round])
+				}
+			}
+		}
+		hists = sel
+	}
+	histSteps, kindMismatch, mustSteps, mustRefused := 0, 0, 0, 0
+	for hi, h := range hists {
+		for _, handle := range []string{"reused", "fresh"} {
+			S, err := os.MkdirTemp(rep.Scratch(), "c26hist")
+			if err != nil {
+				return err
+			}
+			wt := filepath.Join(S, "wt")
+			must(os.MkdirAll(wt, 0o755))
+			for _, n := range []string{"secret", "a", "config", "packed-refs"} {
+				mustWrite(filepath.Join(S, "outside", n), "outside "+n+"\n")
+			}
+			log := jailfs.NewLog()
+			log.Off = true
+			wfs := jailfs.New(osfs.New(wt), []string{"wt"}, log)
+			st := filesystem.NewStorage(osfs.New(filepath.Join(wt, ".git")), cache.NewObjectLRUDefault())
+			repo, err := git.Init(st, git.WithWorkTree(wfs))
+			if err != nil {
+				return fmt.Errorf("init: %w", err)
+			}
+			mustWrite(filepath.Join(wt, ".git", "hooks", "pre-commit"), "#!/bin/sh\n# decoy\n")
+			var tgt []string
+			for _, stp := range h.Steps {
+				if len(stp.Tgt) > 0 {
+					tgt = stp.Tgt
+				}
+			}
+			tDir, err := rawTree(st, []tjEntry{{Path: []string{"d", "a"}, Kind: "file"}, {Path: []string{"a"}, Kind: "file"}}, 0)
+			if err != nil {
+				return err
+			}
+			cDir, err := rawCommit(st, tDir, "dir")
+			if err != nil {
+				return err
+			}
+			tLink, err := rawTree(st, []tjEntry{{Path: []string{"d"}, Kind: "link", Target: tgt}, {Path: []string{"a"}, Kind: "file"}}, 0)
+			if err != nil {
+				return err
+			}
+			cLink, err := rawCommit(st, tLink, "link")
+			if err != nil {
+				return err
+			}
+			sentinels := []string{"outside/secret", "outside/a", "outside/config", "outside/packed-refs", "outside/new", "outside/payload",
+				"wt/.git/config", "wt/.git/packed-refs", "wt/.git/new", "wt/.git/a", "wt/.git/hooks/pre-commit"}
+			before := map[string]string{}
+			for _, sn := range sentinels {
+				before[sn] = hashFile(filepath.Join(S, sn))
+			}
+			w, err := repo.Worktree()
+			if err != nil {
+				return err
+			}
+			key := "dir-to-symlink-swap/" + handle
+			for si, stp := range h.Steps {
+				if handle == "fresh" {
+					if w, err = repo.Worktree(); err != nil {
+						return err
+					}
+				}
+				// observed kind of d before the step vs the kind the spec predicts (not a verdict: a refused swap is fine)
+				obs := "absent"
+				if fi, err := os.Lstat(filepath.Join(wt, "d")); err == nil {
+					if fi.Mode()&os.ModeSymlink != 0 {
+						obs = "link"
+					} else if fi.IsDir() {
+						obs = "dir"
+					} else {
+						obs = "file"
+					}
+				}
+				if obs != stp.Dk {
+					kindMismatch++
+				}
+				histSteps++
+				ci := map[string]any{"key": key, "history": h.Steps, "step": si + 1, "handle": handle, "spec_d_kind": stp.Dk, "observed_d_kind": obs,
+					"spec_must_not_go_through_d": h.Must[si]}
+				child := strings.Join(stp.Path, "/")
+				commit := cDir
+				if stp.Arg == "link" {
+					commit = cLink
+				}
+				var f func() error
+				api := ""
+				switch stp.Op {
+				case "checkout":
+					api, f = "Checkout", func() error { return w.Checkout(&git.CheckoutOptions{Hash: commit, Force: true}) }
+				case "reset":
+					api, f = "Reset", func() error { return w.Reset(&git.ResetOptions{Commit: commit, Mode: git.HardReset}) }
+				case "disk": // behind the handle's back
+					_ = os.RemoveAll(filepath.Join(wt, "d"))
+					_ = os.Symlink(renderPath(stp.Tgt), filepath.Join(wt, "d"))
+					continue
+				case "status":
+					api, f = "Status", func() error { _, err := w.Status(); return err }
+				case "add":
+					api, f = "Add", func() error { _, err := w.Add(child); return err }
+				case "move-in":
+					_ = os.WriteFile(filepath.Join(wt, "payload"), []byte("payload\n"), 0o644)
+					api, f = "Move", func() error { _, err := w.Move("payload", child); return err }
+				case "move-out":
+					api, f = "Move", func() error { _, err := w.Move(child, fmt.Sprintf("out-%d", si)); return err }
+				case "remove":
+					api, f = "Remove", func() error { _, err := w.Remove(child); return err }
+				default:
+					continue
+				}
+				links := snapshotLinks(wt)
+				log.Take()
+				log.Off = false
+				var opErr error
+				func() {
+					defer func() {
+						if p := recover(); p != nil {
+							opErr = fmt.Errorf("panic: %v", p)
+						}
+					}()
+					opErr = f()
+				}()
+				log.Off = true
+				recs := log.Take()
+				r.Eval(1)
+				if opErr == nil {
+					opsOK++
+				}
+				if h.Must[si] && obs == "link" {
+					mustSteps++
+					if opErr != nil {
+						mustRefused++
+					}
+				}
+				if len(recs) > 0 {
+					ntr++
+					tr := tjTrace{ID: ntr, API: api, NTFS: true, HFS: false, Links: links, Recs: toTjRecs(recs), SRecs: []tjRec{}}
+					_ = enc.Encode(&tr)
+					info[fmt.Sprint(ntr)] = map[string]any{"api": api, "scenario": ci, "error": fmt.Sprint(opErr)}
+				}
+				for _, sn := range sentinels {
+					if hh := hashFile(filepath.Join(S, sn)); hh != before[sn] {
+						cls := "dotgit"
+						if strings.HasPrefix(sn, "outside/") {
+							cls = "outside-worktree"
+						}
+						r.Diverge("sentinel|"+cls+"-changed|"+key, fmt.Sprintf("sentinel %s changed (%s -> %s) after %s(%s) with d a %s", sn, before[sn], hh, api, child, obs), ci)
+						before[sn] = hh
+					}
+				}
+			}
+			keyCount[key]++
+			if hi%37 == 0 {
+				r.Sample(map[string]any{"history": h.Steps, "handle": handle})
+			}
+			_ = st.Close()
+			os.RemoveAll(S)
+		}
+	}
+	r.Extra["c26_histories"] = len(hists)
+	r.Extra["c26_history_steps"] = histSteps
+	r.Extra["c26_history_d_kind_mismatches"] = kindMismatch
+	r.Extra["c26_history_steps_below_link"] = mustSteps
+	r.Extra["c26_history_steps_below_link_refused"] = mustRefused
+
 	r.Extra["c26_submodule_scenarios"] = len(subs)
 	r.Extra["c26_submodule_init_ok"] = subInit
 	r.Extra["c26_submodule_repository_ok"] = subRepo
